@@ -33,7 +33,7 @@ func getSamRecords(in io.Reader, chnl chan biogosam.Record, cdone chan bool, cer
 
 	var err error
 
-	s, err := biogosam.NewReader(in)
+	s, err := biogosam.NewReader(&lineEnded{r: in})
 	if err != nil {
 		cerr <- err
 		return
